@@ -17,7 +17,7 @@ CASE_GUARD_S = {'quick': 300, 'thorough': 3600}  # a case is a composite (a bloc
 CHUNK = 3
 RULE = ('line-matcher trees: line-num with integer-matcher trees of depth <= 2 (6 operators, operands from -1 to N+2, constants, !, &&, ||), '
         'line-level trees of depth <= 2 (thorough 3) over line-num comparisons, contents matchers and constants, mixed trees and their '
-        'negations; range lists of <= 2 (thorough <= 3, and 4 over a reduced bound set) ranges of the four forms with bounds in [-N-2, N+2]; '
+        'negations; range lists of <= 2 ranges, 3 over a reduced set (thorough: <= 3, and 4 over a reduced bound set) of the four forms with bounds in [-N-2, N+2]; '
         'each applied to every text of 0..N lines (two a/b patterns, with and without final newline), N = 6 (thorough 9); '
         'non-trivial = the expression keeps some but not all lines of at least one text; expressions are deduplicated by their source text')
 ASSUMPTIONS = [
@@ -139,6 +139,8 @@ def range_lists(tier):
         out += [(n, [r]) for r in rs]
         red = single_ranges([-n - 1, -2, -1, 0, 1, 2, n, n + 1])
         out += [(n, [r1, r2]) for r1 in red for r2 in red]
+        red3 = [('p', 1), ('p', -1), ('u', 2), ('l', 3), ('l', -2), ('f', 2, 3), ('f', -3, -2), ('f', 3, 2), ('p', 0)]
+        out += [(n, [a, b, c]) for a in red3 for b in red3 for c in red3]
     else:
         n = 4
         b = list(range(-n - 2, n + 3))
@@ -238,6 +240,15 @@ def _one_lm(res, ast, txts):
             got = 'EXC %s: %s' % (type(ex).__name__, ex)
         if got != exp:
             res.violation(one, ['filter %s on %r: got %r, per-line evaluation gives %r' % (src, t, got, exp)])
+        # file-backed model (the read-ahead works on an open file there)
+        fp = E.write_act('lm-model.txt', t)
+        res.n += 1
+        try:
+            got_f = tr.transform(E.model_file(fp)).contents().as_str
+        except Exception as ex:  # noqa
+            got_f = 'EXC %s: %s' % (type(ex).__name__, ex)
+        if got_f != exp:
+            res.violation(one, ['filter %s on a FILE holding %r: got %r, per-line evaluation gives %r' % (src, t, got_f, exp)])
         # the same real matcher, line by line
         real_keep = []
         for m in models:
